@@ -268,4 +268,12 @@ class KD(KA):
   pass
 
 
-CLASSES = [KA, KB, KC, KD]
+class KE(KB, metaclass=__import__('abc').ABCMeta):
+  """A class whose metaclass is not `type` (abc.ABC style), in the same hierarchy."""
+
+
+class KF(KE):
+  pass
+
+
+CLASSES = [KA, KB, KC, KD, KE, KF]
